@@ -143,7 +143,8 @@ def mutation_canary(unit, c, idx, pid=None):
     """apply one textual mutation to the *source* (in memory) and require the unit to be rejected."""
     rel = c["file"]
     path = os.path.join(U.REPO, rel)
-    src = open(path).read()
+    src = open(path).read().replace("\r\n", "\n")
+    c = dict(c); c["find"] = c["find"].replace("\r\n", "\n"); c["replace"] = c["replace"].replace("\r\n", "\n")
     if src.count(c["find"]) < 1:
         return {"name": c["name"], "ok": None, "why": "pattern not found in current source (code changed); skipped"}
     mutated = src.replace(c["find"], c["replace"], 1)
